@@ -309,6 +309,17 @@ def make_intent(rng, name, D, N, L=None, dt=None, variant=0, order=None):
     return it
 
 
+CONTOURS = [(32, 1.0), (16, 0.5), (24, 2.0), (64, 0.25)]
+
+
+def vary_contour(rng, it, prob=0.3):
+    """Documented constructor options of every semi-linear stepper: with probability `prob` use a non-default contour (num_circle_points, circle_radius)."""
+    if not SPECS[it["cls"]]["linear"] and it["kw"].get("order", 2) != 0 and rng.uniform() < prob:
+        M, r = CONTOURS[int(rng.integers(0, len(CONTOURS)))]
+        it["kw"]["num_circle_points"], it["kw"]["circle_radius"] = M, r
+    return it
+
+
 def build(ex, it, **override):
     """Build the real stepper from an intent (what the caller would type)."""
     spec = SPECS[it["cls"]]
